@@ -21,7 +21,8 @@ EXPLANATION = (
     "by E2 against exhaustive minima. Completeness of encode_mgs is proved (C15_genset_rows_complete, partition constraints included), hence "
     "C15_mgs_returns_minimum: the reported size is the least size of a generating multiset from the lower bound on. The range's upper end suffices without partition "
     "constraints (C15_range_witness, C15_range_upper_end_suffices, C15_mgs_always_solves; feasibility monotone in k by zero padding); "
-    "_partial only with partition constraints (cut-point construction not proved; sampled by E2).")
+    "with partition constraints C15_range_suffices (cut-point construction) and the two-directional iff for the predicate the rows "
+    "enforce (genset_rows); C15_mgs_always_solves_minimum: solved with the minimum on the whole documented domain.")
 ASSUMPTIONS = ["HiGHS status kOptimal => returned assignment satisfies the rows within 1e-9 and is optimal; kInfeasible => no assignment (solver specification, DESIGN §4)",
                "float instances use dyadic values (exact in doubles); float answers are checked with tolerance 1e-6, integer answers exactly",
                "exhaustive minima: integer multisets over 0..total (total <= 12, size <= 4); set covers over all 2^n subfamilies (n <= 8)"]
